@@ -64,6 +64,7 @@ static std::atomic<int> ev1906{0}, ev1906_unlocked{0}, ev1901{0}, ev1901_bad{0},
 static std::atomic<int> gate_site{0};                 // 1907 or 1902: block worker gate_worker there while armed
 static std::atomic<int> gate_worker{-1};
 static std::atomic<bool> gate_armed{false}, gate_reached{false};
+static std::atomic<bool> gate_any_running{false};     // gate at 1907 also when the worker computed running = true (LOWP)
 
 static inline std::uint64_t mix(std::uint64_t x)
 {
@@ -125,7 +126,8 @@ static void hook(int site, void const* obj, std::uint64_t a, std::uint64_t b)
     case 1907: ++ev1907; break;
     default: break;
     }
-    if (gate_armed.load() && site == gate_site.load() && int(a) == gate_worker.load() && (site != 1907 || b == 0))
+    if (gate_armed.load() && site == gate_site.load() && int(a) == gate_worker.load() &&
+        (site != 1907 || b == 0 || gate_any_running.load()))
     {
         gate_reached.store(true);
         auto t0 = std::chrono::steady_clock::now();
@@ -489,9 +491,14 @@ static void run_lowp(std::string const& id)
 {
     std::printf("IN LOWP %s nw=%d el=%d st=%d\n", id.c_str(), NW, int(EL), int(ST));
     std::fflush(stdout);
-    begin_case("LOWP", id, 60);
+    begin_case("LOWP", id, 80);
     int const last = NW - 1;
     int const n = 30;
+    // the schedule of the model witness (Proofs: lp_sched / driver case LOWP): the last worker is parked in its idle branch
+    // (running = true, hook 1907) while the tasks are staged and until the suspender's CAS running -> pre_sleep has happened;
+    // released, it finds running = false in its next iteration
+    gate_site = 1907; gate_worker = last; gate_reached = false; gate_any_running = true; gate_armed = true;
+    bool reached = wait_flag(gate_reached, 10000);
     for (int i = 0; i < n; ++i)
     {
         int tid = nsub.fetch_add(1);
@@ -503,6 +510,13 @@ static void run_lowp(std::string const& id)
     }
     std::atomic<bool> returned{false};
     std::thread s([&] { suspend_pu(last); returned = true; });
+    {
+        auto t0 = std::chrono::steady_clock::now();
+        while (TP->get_scheduler()->get_state(last).load() != pika::runtime_state::pre_sleep &&
+            std::chrono::steady_clock::now() - t0 < 5s)
+            std::this_thread::sleep_for(50us);
+    }
+    gate_armed = false; gate_any_running = false;
     bool ret = wait_flag(returned, 3000);
     int done_then = ndone.load();
     std::string st_then = states_str();
@@ -519,8 +533,8 @@ static void run_lowp(std::string const& id)
     s.join();
     resume_all_quiet();
     bool all = wait_done(nsub.load(), 20000);
-    std::printf("OUT LOWP %s returned=%d done_then=%d of=%d states_then=%s no_progress=%d all=%d %s\n", id.c_str(), int(ret), done_then, n,
-        st_then.c_str(), int(stuck_more), int(all), ledger_check().c_str());
+    std::printf("OUT LOWP %s reached=%d returned=%d done_then=%d of=%d states_then=%s no_progress=%d all=%d %s\n", id.c_str(), int(reached), int(ret),
+        done_then, n, st_then.c_str(), int(stuck_more), int(all), ledger_check().c_str());
     std::fflush(stdout);
     end_case();
 }
